@@ -59,20 +59,22 @@ def _sample(job):
     H = np.array([np.mean((X[:, 0] <= a) & (X[:, 1] <= b)) for a, b in P])
     Cm = np.asarray(m.cumulative_distribution(P.copy()), dtype=float)
     rec['stats']['joint'] = (float(np.max(np.abs(H - Cm))), 0.0, eps)
+    # the tails of the margins are pooled over the seeds in run(): counts below 0.02 and above 0.98 per column
+    rec['tails'] = [[int(np.sum(X[:, j] < 0.02)), int(np.sum(X[:, j] > 0.98))] for j in range(2)]
     return rec
 
 
 def run(ctx):
     quick = ctx.tier == 'quick'
-    n = 6000 if quick else 20000
+    n = 12000 if quick else 20000
     ctx.rule = ('sample(n=%d; 16 n for Clayton) of parameterised Clayton, Frank and Gumbel copulas at taus across the admissible part of [-0.8, 0.8] x seeds: exact '
                 'clauses (shape (n,2), finite, in [0,1]); TLC (Acceptance) evaluates the bands: Kolmogorov-Smirnov distance of each column to the '
-                'uniform law (DKW), sample Kendall tau vs model tau (Hoeffding bound for U-statistics), sup distance between the empirical joint CDF '
+                'uniform law (DKW) and the mass of each column below 0.02 / above 0.98 pooled over the seeds (Bernstein band), sample Kendall tau vs model tau (Hoeffding bound for U-statistics), sup distance between the empirical joint CDF '
                 'on an 11x11 grid (0, 0.1 .. 0.9, 1) and cumulative_distribution (Hoeffding); per-comparison level 1e-11.  non-trivial = every sample; distinct by '
                 '(family, tau, seed)') % n
     ctx.assumptions = ['bands are non-asymptotic with total false-alarm probability < 1e-9 per run; a distributional defect smaller than the band '
                        '(%.3f for CDFs, %.3f for tau) is not detected' % (math.sqrt(math.log(2 / ALPHA) / (2.0 * n)), math.sqrt(2 * math.log(2 / ALPHA) / (n // 2)))]
-    taus = {'Clayton': (0.1, 0.35, 0.6, 0.8), 'Gumbel': (0.05, 0.3, 0.55, 0.8), 'Frank': (-0.8, -0.4, 0.15, 0.5, 0.8)}
+    taus = {'Clayton': (0.1, 0.35, 0.6, 0.8), 'Gumbel': (0.0, 0.05, 0.3, 0.55, 0.8), 'Frank': (-0.8, -0.4, 0.15, 0.5, 0.8)}     # Gumbel tau 0: theta = 1, the closed end
     seeds = (1, 2) if quick else (1, 2, 3, 4, 5)
     # Clayton samples through the closed-form inverse, so a much larger n is affordable: the generic sampling path
     # (uniform draws, column order, clipping) is then resolved to ~0.01
@@ -92,10 +94,29 @@ def run(ctx):
         for name, (obs, exp, band) in r['stats'].items():
             arecs.append(A.band('%s|%s|seed=%d' % (key, name, r['seed']), obs, exp, band))
             owner.append((r, name))
+    # tail cells of the margins, pooled over the seeds of a (family, tau) cell: Bernstein band at level ALPHA for a binomial count
+    pooled = {}
+    for r in recs:
+        if 'tails' in r:
+            c = pooled.setdefault((r['fam'], r['tau']), [[0, 0], [0, 0], 0])
+            for j in range(2):
+                for k in range(2):
+                    c[j][k] += r['tails'][j][k]
+            c[2] += r['n']
+    L = math.log(2.0 / ALPHA)
+    for (fam, tau), c in sorted(pooled.items()):
+        N = c[2]
+        var = N * 0.02 * 0.98
+        d = L / 3.0 + math.sqrt(L * L / 9.0 + 2.0 * L * var)          # solves d^2 = 2 L (var + d / 3)
+        for j in range(2):
+            for k, side in enumerate(('lower', 'upper')):
+                arecs.append(A.band('%s|tau=%.2f|column %d %s tail (2 %%) pooled over seeds' % (fam, tau, j, side), c[j][k] / N, 0.02, d / N))
+                owner.append(({'fam': fam, 'tau': tau, 'seed': 0, 'stats': {'tail': (c[j][k] / N, 0.02, d / N)}, 'n': N}, 'tail'))
     for i in A.evaluate(ctx, 'Acceptance.samples', arecs):
         r, name = owner[i]
         what = {'ks0': 'first column not uniform', 'ks1': 'second column not uniform', 'tau': 'sample Kendall tau differs from the model tau',
-                'joint': 'empirical joint CDF differs from cumulative_distribution'}[name]
+                'joint': 'empirical joint CDF differs from cumulative_distribution',
+                'tail': 'mass of a margin below 0.02 / above 0.98 differs from 0.02'}[name]
         ctx.violation('C09|%s|%s|%s' % (r['fam'], name.rstrip('01') if name.startswith('ks') else name, 'neg' if r['tau'] < 0 else 'pos'),
                       '%s: %s at tau=%.2f seed=%d: observed %.4f expected %.4f band %.4f' % (r['fam'], what, r['tau'], r['seed'], *r['stats'][name]), r)
     ctx.extra['max_stat_over_band'] = max([abs(o - e) / b for r in recs for (o, e, b) in r['stats'].values()] or [0])
